@@ -436,7 +436,11 @@ impl TransformerContext {
 
     pub fn update_element(&mut self, el: &SvgElement) {
         if let Some(id) = el.get_attr("id") {
+            // Registration must not advance the random stream: the id is evaluated
+            // again (and then emitted) when the element's attributes are evaluated.
+            let saved_rng = self.rng.borrow().clone();
             let id = eval_attr(&id, self).unwrap_or(id);
+            *self.rng.borrow_mut() = saved_rng;
             if self.elem_map.insert(id.clone(), el.clone()).is_none() {
                 self.original_map.insert(id, el.clone());
             }
